@@ -101,6 +101,9 @@ func (e *Engine) VerifyFunc(fn *ssa.Function, spec *FuncSpec, prop string) (err 
 	}
 	x.oldHeap = copyHeap(st.heap)
 	env.old = x.oldHeap
+	for _, h := range spec.Hints {
+		x.applyHint(st, env, h)
+	}
 	for _, a := range spec.Assigns {
 		x.assignLocs = append(x.assignLocs, x.evalAssignTarget(env, a, spec)...)
 	}
@@ -1037,4 +1040,50 @@ func (x *Exec) assignTargetMaps(c *Clause, fn *ssa.Function, spec *FuncSpec, sig
 		return out, true
 	}
 	return nil, false
+}
+
+// applyHint assumes an instance of a proved lemma: `hint pkg.Lemma(args)` adds
+// (requires => ensures) of the lemma's contract for the given arguments.
+func (x *Exec) applyHint(st *State, env *Env, h *Clause) {
+	call, ok := h.E.(ECall)
+	if !ok {
+		panic(evalErr("hint must be a call to a lemma function: " + h.Text))
+	}
+	f := env.eval(call.Fun)
+	if f.FnRef == nil {
+		panic(evalErr("hint: not a function: " + h.Text))
+	}
+	spec := x.e.specFor(f.FnRef)
+	if spec == nil || spec.Trusted {
+		panic(evalErr("hint: lemma " + f.FnRef.Name() + " has no (verified) contract"))
+	}
+	if len(spec.Assigns) > 0 {
+		panic(evalErr("hint: lemma " + f.FnRef.Name() + " must not assign anything"))
+	}
+	fn := f.FnRef
+	if len(call.Args) != len(fn.Params) {
+		panic(evalErr("hint: wrong number of arguments: " + h.Text))
+	}
+	vars := map[string]TV{}
+	for i, p := range fn.Params {
+		tv := env.eval(call.Args[i])
+		if tv.V == nil {
+			tv = env.coerce(tv, p.Type())
+		} else if n, ok := numOf(p.Type()); ok {
+			if fnum, ok2 := numOf(tv.T); ok2 && fnum != n {
+				tv = TV{V: st.convert(tv.T, p.Type(), tv.V), T: p.Type()}
+			}
+		}
+		vars[p.Name()] = TV{V: tv.V, T: p.Type()}
+	}
+	lenv := &Env{x: x, st: st, heap: env.heap, old: env.heap, vars: vars, ovars: vars, pkg: x.specPkg(spec)}
+	var pre, post []*Term
+	for _, c := range spec.Requires {
+		pre = append(pre, x.evalClause(st, lenv, c, spec))
+	}
+	for _, c := range spec.Ensures {
+		post = append(post, x.evalClause(st, lenv, c, spec))
+	}
+	st.assume(Implies(And(pre...), And(post...)))
+	x.e.lemmasUsed[x.e.qualName(fn)] = true
 }
